@@ -116,6 +116,49 @@ fn vm_config(j: Option<&J>) -> vm::Config {
 /// `small_hashes` (used only under Miri, where 10 000 keccaks per request are unaffordable) the same pass list is
 /// built by hand with a reduced hash table.
 fn tc_config(small_hashes: Option<usize>) -> tc::Config {
+    let mut config = tc_config_shipped(small_hashes);
+    if let Some((first, every)) = FAILING_LIFT.with(std::cell::Cell::get) {
+        config.lifting_passes.add(FailingLift { first, every, seen: 0 });
+    }
+    config
+}
+
+thread_local! {
+    /// `failing_lift` of the request being served: (index of the first value to reject, period).
+    static FAILING_LIFT: std::cell::Cell<Option<(usize, usize)>> = const { std::cell::Cell::new(None) };
+}
+
+/// A user-defined lifting pass (the documented extension point `LiftingPasses::add`) that rejects every `every`-th
+/// value from the `first` one on and passes the others through untouched: the only way to make the lifting stage
+/// buffer errors while it still has values to go through.
+#[derive(Debug)]
+struct FailingLift {
+    first: usize,
+    every: usize,
+    seen:  usize,
+}
+
+impl tc::lift::Lift for FailingLift {
+    fn run(
+        &mut self,
+        value: RuntimeBoxedVal,
+        _state: &tc::state::TypeCheckerState,
+    ) -> storage_layout_extractor::error::unification::Result<RuntimeBoxedVal> {
+        let n = self.seen;
+        self.seen += 1;
+        if n >= self.first && (n - self.first) % self.every.max(1) == 0 {
+            let mut errors = storage_layout_extractor::error::unification::Errors::new();
+            errors.add_located(
+                value.instruction_pointer(),
+                storage_layout_extractor::error::unification::Error::OverSizedNumber { value: 1, width: 0 },
+            );
+            return Err(errors);
+        }
+        Ok(value)
+    }
+}
+
+fn tc_config_shipped(small_hashes: Option<usize>) -> tc::Config {
     match small_hashes {
         None => tc::Config::default(),
         Some(n) => {
@@ -375,6 +418,14 @@ pub fn handle(req: &J) -> J {
         .unwrap_or_default();
     let wants = |k: &str| observe.iter().any(|o| o == k);
     let small_hashes = req.get("small_hashes").and_then(J::as_u64).map(|n| n as usize);
+    FAILING_LIFT.with(|c| {
+        c.set(req.get("failing_lift").map(|f| {
+            (
+                f.get("first").and_then(J::as_u64).unwrap_or(0) as usize,
+                f.get("every").and_then(J::as_u64).unwrap_or(1) as usize,
+            )
+        }))
+    });
     let annotate = req.get("annotate").and_then(J::as_bool).unwrap_or(false);
     let mem_offsets: Vec<J> = req.get("mem_offsets").and_then(J::as_array).cloned().unwrap_or_default();
     let state_cap = req.get("state_cap").and_then(J::as_u64).unwrap_or(64) as usize;
